@@ -385,7 +385,7 @@ func (c *childState) runHistory(hi int, h *history) (abort bool) {
 		c.sum.Uploads++
 		processed := false
 		nproc := 0
-		hk := lastHook
+		hk := noHook(h.Tracks) // "have" only for the hook event of THIS upload
 		if status == http.StatusOK && kind == "media" {
 			deadline := time.After(processTimeout)
 		wait:
@@ -407,9 +407,11 @@ func (c *childState) runHistory(hi int, h *history) (abort bool) {
 			c.sum.Rejected++
 		}
 		c.pl.active.Store(false)
-		lastHook = hk
-		if hk["have"] == true && toInt(hk["maxBuf"]) > 0 {
-			started = true
+		if hk["have"] == true {
+			lastHook = hk
+			if toInt(hk["maxBuf"]) > 0 {
+				started = true
+			}
 		}
 		// observation
 		files := map[string]any{}
